@@ -471,7 +471,7 @@ def masked(h):
 BOUNDS_FORMS = ['one-interval', 'two-intervals', 'open-below', 'open-above']
 
 
-@contract('C16/constraints.bounded/clip-to-nearest', ['C16', 'C02', 'C03'], K + 'bounded', samples=200)
+@contract('C16/constraints.bounded/clip-to-nearest', ['C16', 'C02', 'C03', 'C13'], K + 'bounded', samples=200)
 def bounded_clip(h):
     """bounded(seq, bounds, index, clip=True, nearest=True) at three entries, all values, one interval [lo, hi] (a side
     may be None = open) or two disjoint intervals [lo, hi] < [lo2, hi2]: every SELECTED entry that lies in no interval is
@@ -518,7 +518,7 @@ def bounded_clip(h):
     h.check('callers-sequence-not-modified', 'seq_eq(x, x0)', x=x, x0=x0)
 
 
-@contract('C16/constraints.bounded/redraw-inside', ['C16', 'C02', 'C03'], K + 'bounded', native=False)
+@contract('C16/constraints.bounded/redraw-inside', ['C16', 'C02', 'C03', 'C13'], K + 'bounded', native=False)
 def bounded_redraw(h):
     """bounded(..., clip=False): a selected entry that lies in no interval is REPLACED by a drawn value inside an interval
     (nearest=True: the interval nearest to it; False: any of them); an entry that lies in an interval -- ON an end
@@ -557,7 +557,7 @@ def bounded_redraw(h):
     h.check('callers-sequence-not-modified', 'seq_eq(x, x0)', x=x, x0=x0)
 
 
-@contract('C16/constraints.impose_bounds', ['C16', 'C02', 'C03'], K + 'impose_bounds.dec.func', native=False)
+@contract('C16/constraints.impose_bounds', ['C16', 'C02', 'C03', 'C13'], K + 'impose_bounds.dec.func', native=False)
 def impose_bounds(h):
     """the decorator routes every (selected index, its bounds) to bounded() -- whose own contract is above -- in the
     clip / nearest mode currently set (func.clip(..) / func.nearest(..) switch it), chains the calls, and hands the
@@ -609,3 +609,37 @@ def impose_bounds(h):
     last = results[-1]
     h.check('decorated-function-gets-the-bounded-vector-as-a-list', 'len(fc) == 1 and seq_eq(fc[0][0], last) and not isarr', fc=fc, last=last,
             isarr=bool(getattr(fc[0][0], 'nd', False)) if len(fc) == 1 else False)
+
+
+SAMPLE_SETS = [(1.0, 2.0), (-1.5, 0.0, 4.0), (3.0,), (2.0, -2.0, 0.5, 7.0)]
+
+
+@contract('C16/constraints.discrete', ['C16'], K + 'discrete.dec.func', samples=200)
+def discrete(h):
+    """each selected entry is mapped onto the member of the sample set nearest to it (the lower one on a tie; below / above
+    all members: the smallest / largest), members of the set and unselected entries are unchanged -- three entries, all
+    values, enumerated sample sets (given unsorted as well)"""
+    samples = h.choice('samples', SAMPLE_SETS)
+    idx = h.choice('index', [None, (0, 2), 1, (-1,), (5, 0)])
+    x = h.vec('x', 3)
+    x0 = h.snapshot(x)
+    f = h.fn('F', ret='real', log='calls')
+    func = h.call(h.call(h.get(K + 'discrete'), h.clist(list(samples)), idx), f)
+    h.call(func, x)
+    calls = h.log('calls')
+    h.check('decorated-function-called-once-with-three-entries', 'len(calls) == 1 and len(calls[0][0]) == 3', calls=calls)
+    y = calls[0][0]
+    sel = range(3) if idx is None else [i % 3 for i in ((idx,) if isinstance(idx, int) else idx) if -3 <= i < 3]
+    if idx == (5, 0):
+        sel = []            # an index beyond the end: numpy's integer-array assignment is atomic, nothing is selected
+    S = sorted(samples)
+    for i in range(3):
+        e = dict(v=h.ev('x0[%d]' % i, x0=x0), w=h.ev('y[%d]' % i, y=y))
+        if i not in sel:
+            h.check('unselected-entries-unchanged', 'w == v', **e)
+            continue
+        h.check('lands-on-a-member', ' or '.join('w == %r' % s_ for s_ in S), **e)
+        h.check('members-unchanged', ' and '.join('implies(v == %r, w == %r)' % (s_, s_) for s_ in S), **e)
+        h.check('no-member-is-nearer', ' and '.join('abs(w - v) <= abs(%r - v)' % s_ for s_ in S), **e)
+        h.check('the-lower-member-on-a-tie', ' and '.join('implies(abs(%r - v) == abs(w - v), w <= %r)' % (s_, s_) for s_ in S), **e)
+    h.check('input-vector-not-modified', 'seq_eq(x, x0)', x=x, x0=x0)
